@@ -1,5 +1,5 @@
 (* C03 part B -- the guarded equivalence lifted over pipelines and through $facet, for the
-   stages $match, $sort, $skip, $limit, $count, $unwind (without includeArrayIndex),
+   stages $match, $sort, $skip, $limit, $count, $unwind (includeArrayIndex too),
    $addFields / $set, $replaceRoot, $lookup, $facet *)
 From Coq Require Import ZArith List String Bool Ascii Lia Permutation.
 From Verif Require Import Value PyEq BsonOrder Path Update Filter FilterSpec FilterGuard Coll Cursor
@@ -14,7 +14,7 @@ Open Scope list_scope.
 (* ------------------------------------------------------------ the stages covered *)
 Definition basic_covered (op : string) (o : value) : bool :=
   (op =? "$match") || (op =? "$skip") || (op =? "$limit") || (op =? "$count")
-  || ((op =? "$sort") && sort_covered o) || ((op =? "$unwind") && unwind_covered o)
+  || ((op =? "$sort") && sort_covered o) || (op =? "$unwind")
   || (op =? "$addFields") || (op =? "$set") || (op =? "$replaceRoot")
   || ((op =? "$lookup") && lookup_covered o).
 
@@ -35,7 +35,7 @@ Definition covered_facets_of (cv : value -> string -> bool) :=
     end.
 
 (* the operators of the pipeline (and of the sub-pipelines of $facet, recursively) are among
-   $match, $sort (modelled key paths), $skip, $limit, $count, $unwind (no includeArrayIndex),
+   $match, $sort (modelled key paths), $skip, $limit, $count, $unwind (any option document),
    $addFields, $set, $replaceRoot, $lookup (localField / foreignField form), $facet; a
    malformed stage is accepted here: the specification leaves it undecided *)
 Fixpoint covered (o : value) (op : string) {struct o} : bool :=
@@ -185,8 +185,7 @@ Proof.
   - apply String.eqb_eq in Hc. subst. apply stage_count.
   - apply andb_true_iff in Hc. destruct Hc as [Hop Hc]. apply String.eqb_eq in Hop. subst.
     apply stage_sort; assumption.
-  - apply andb_true_iff in Hc. destruct Hc as [Hop Hc]. apply String.eqb_eq in Hop. subst.
-    apply stage_unwind; assumption.
+  - apply String.eqb_eq in Hc. subst. apply stage_unwind. exact Hg.
   - apply String.eqb_eq in Hc. subst. apply stage_add_fields. exact Hg.
   - apply String.eqb_eq in Hc. subst. apply stage_set. exact Hg.
   - apply String.eqb_eq in Hc. subst. apply stage_replace_root. exact Hg.
